@@ -53,7 +53,13 @@ class Ctx(object):
         # a safety net, not a budget: scenarios are sized to finish well inside it; a cap that is hit is reported
         kw.setdefault('max_seconds', int(os.environ.get('VERIF_SCENARIO_CAP_S', '900' if self.quick else '5400')))
         kw.setdefault('log', self.log if os.environ.get('VERIF_VERBOSE') else None)
-        r = explorer.explore(scn, mon_cls, **kw)
+        try:
+            r = explorer.explore(scn, mon_cls, **kw)
+        except explorer.PrefixBroken as e:
+            self.violation({'kind': 'prefix', 'signature': 'scripted-prefix-misbehaves/%s' % scn.name, 'detail': str(e),
+                            'history': [list(map(explorer._j, ev)) for ev in scn.init], 'scenario': scn.describe()})
+            self.log('[%s] %-28s scripted prefix misbehaves: %s' % (self.prop, scn.name, e))
+            return None
         self.states += r.states
         self.transitions += r.transitions
         self.executions += r.executions
